@@ -104,8 +104,46 @@ def roundtrip(tf, scratch, items, dialect, name):
         got = db2.all(sorted=False)
     finally:
         db2.close()
+    # the same file read attribute-wise through select(), served from the index
+    sel = None
+    tkeys = sorted({k for p, _ in items for k in p.tags if k})[:12]
+    fkeys = sorted({k for p, _ in items for k in p.fields if k})[:12]
+    if (tkeys or fkeys) and len(items) <= 20000:
+        db3 = tf.TinyFlux(path, auto_index=True, **dialect)
+        try:
+            cols = ["tags." + k for k in tkeys] + ["fields." + k for k in fkeys] + ["measurement"]
+            sel = (tkeys, fkeys, db3.select(tuple(cols), tf.TimeQuery().noop()))
+        finally:
+            db3.close()
     os.unlink(path)
+    _LAST["select"] = sel
     return got, rows
+
+
+_LAST = {}
+
+
+def check_select(rep, orig, what, dialect):
+    """select() of every tag / field column must give back the inserted values (None only for None / absent)"""
+    sel = _LAST.get("select")
+    if not sel:
+        return 0
+    tkeys, fkeys, rows = sel
+    if len(rows) != len(orig):
+        rep.violation("select() returned %d rows for %d points (%s, dialect %r)" % (len(rows), len(orig), what, dialect), {"dialect": str(dialect)}, tags={"select", "count"})
+        return 0
+    n = 0
+    for (p, c), row in zip(orig, rows):
+        if classify(p):
+            continue
+        exp = [p.tags.get(k) for k in tkeys] + [p.fields.get(k) for k in fkeys] + [p.measurement]
+        n += 1
+        for name, e, g in zip(["tags." + k for k in tkeys] + ["fields." + k for k in fkeys] + ["measurement"], exp, row):
+            if not same_value(e, g):
+                rep.violation("select(%r) returns %r for a point holding %r (%s, dialect %r): %r" % (name, g, e, what, dialect, p),
+                              {"dialect": str(dialect), "point": repr(p), "column": name}, tags={"select"} | _text_tags(p))
+                break
+    return n
 
 
 def copy_point(tf, p):
@@ -205,6 +243,7 @@ def main():
             if len(got) != len(orig):
                 rep.violation("wrote %d points, read back %d (dialect %r)" % (len(orig), len(got), dialect), {"dialect": str(dialect)}, tags={"count"})
                 continue
+            n_checked += check_select(rep, orig, "universe", dialect)
             for (p, c), q, u in zip(orig, got, cmeta):
                 n_checked += 1
                 d = same_point(p, q)
@@ -271,6 +310,7 @@ def main():
                 rep.violation("wrote %d points, read back %d (dialect %r); first offending point %r" % (len(orig), len(got), dialect, culprit),
                               {"dialect": str(dialect), "point": repr(culprit)}, tags={"count"} | _text_tags(culprit))
                 continue
+            n_checked += check_select(rep, orig, "random points", dialect)
             for (p, c), q in zip(orig, got):
                 n_checked += 1
                 d = same_point(p, q)
